@@ -131,6 +131,8 @@ class Crazyflie():
         self.packet_received.add_callback(self._check_for_initial_packet_cb)
         self.packet_received.add_callback(self._check_for_answers)
 
+        # Pending answers: pattern -> {request packet: running retry timer}.
+        # Several requests can wait for the same pattern.
         self._answer_patterns = {}
         # Protects _answer_patterns, which is updated by the sending threads,
         # the retry timers and the incoming packet handler. Never held while
@@ -236,8 +238,9 @@ class Crazyflie():
         with self._answer_patterns_lock:
             answer_patterns = self._answer_patterns
             self._answer_patterns = {}
-        for timer in list(answer_patterns.values()):
-            timer.cancel()
+        for timers in list(answer_patterns.values()):
+            for timer in list(timers.values()):
+                timer.cancel()
 
     def _check_for_initial_packet_cb(self, data):
         """
@@ -337,7 +340,7 @@ class Crazyflie():
         timer.
         """
         longest_match = ()
-        timer = None
+        timers = None
         with self._answer_patterns_lock:
             if len(self._answer_patterns) > 0:
                 data = (pk.header,) + tuple(pk.data)
@@ -350,9 +353,11 @@ class Crazyflie():
                                 logger.debug('Found new longest match %s', match)
                                 longest_match = match
             if len(longest_match) > 0:
-                timer = self._answer_patterns.pop(longest_match, None)
-        if timer is not None:
-            timer.cancel()
+                timers = self._answer_patterns.pop(longest_match, None)
+        if timers is not None:
+            # Every request that waits for this pattern has been answered
+            for timer in list(timers.values()):
+                timer.cancel()
 
     def send_packet(self, pk, expected_reply=(), resend=False, timeout=0.2):
         """
@@ -382,7 +387,11 @@ class Crazyflie():
                                                                        pattern,
                                                                        timeout))
                     with self._answer_patterns_lock:
-                        self._answer_patterns[pattern] = new_timer
+                        timers = self._answer_patterns.setdefault(pattern, {})
+                        old_timer = timers.get(pk)
+                        timers[pk] = new_timer
+                    if old_timer is not None:
+                        old_timer.cancel()
                     new_timer.start()
                 elif resend:
                     # Check if we have gotten an answer, if not try again
@@ -392,9 +401,10 @@ class Crazyflie():
                                       self._no_answer_do_retry(
                                           pk, pattern, timeout))
                     with self._answer_patterns_lock:
-                        still_pending = pattern in self._answer_patterns
+                        timers = self._answer_patterns.get(pattern)
+                        still_pending = timers is not None and pk in timers
                         if still_pending:
-                            self._answer_patterns[pattern] = new_timer
+                            timers[pk] = new_timer
                     if still_pending:
                         logger.debug('We want to resend and the pattern is there')
                         new_timer.start()
